@@ -78,6 +78,11 @@ def one_case(args):
         subname = 'sub/Manifest' + ('' if subcomp == 'plain' else '.' + subcomp)
         sub_ents = [fm.make_entry('DATA', p[4:], d, ['SHA256']) for p, d in sorted(files.items()) if p.startswith('sub/')]
         subdata = fm.manifest_bytes(sub_ents, subcomp)
+        if case.get('sub_signed'):
+            # a sub-Manifest that carries a valid signature of its own on disk: it is verified on
+            # load, and must nevertheless be written back unsigned
+            subtext = full.clearsign(fm.manifest_bytes(sub_ents).decode('utf8'), keyid=homes['a'])
+            subdata = fm.compress(subtext.encode('utf8'), subcomp)
         with open(os.path.join(root, subname), 'wb') as f:
             f.write(subdata)
         top_ents = [fm.make_entry('DATA', p, d, ['SHA256']) for p, d in sorted(files.items()) if '/' not in p]
@@ -179,8 +184,9 @@ def all_cases(rng, thorough):
                     for rename_top in (False, True):
                         for subcomp in (('plain', 'gz', 'xz') if thorough else (rng.choice(['plain', 'gz', 'bz2', 'xz']),)):
                             for hostile in ((False, True) if thorough else (rng.random() < 0.5,)):
-                                cases.append({'signopt': signopt, 'was_signed': was_signed, 'keyid': keyid,
-                                              'key_usable': key_usable, 'rename_top': rename_top,
-                                              'subcomp': subcomp, 'hostile': hostile,
-                                              'sort': rng.choice([None, True])})
+                                for sub_signed in ((False, True) if thorough or keyid == 'default' else (False,)):
+                                    cases.append({'signopt': signopt, 'was_signed': was_signed, 'keyid': keyid,
+                                                  'key_usable': key_usable, 'rename_top': rename_top,
+                                                  'subcomp': subcomp, 'hostile': hostile, 'sub_signed': sub_signed,
+                                                  'sort': rng.choice([None, True])})
     return cases
